@@ -481,17 +481,43 @@ def text_form_pairing(ctx):
                     in_false_branch = any(isinstance(a, ast.If) and src(a.test) == 'unit is False' and any(c is x for st in a.body for x in ast.walk(st)) for a in ancestors(c))
                     ctx.check(not in_false_branch, construct, c, 'True only outside the unit=False branch', 'True is passed in the unit=False branch', f)
                 elif isinstance(flag, ast.Name):
-                    ok = True
-                    for v, st, how in local_assigns(f.node, flag.id):
-                        if how != 'assign' or v is None:
-                            ok = False
-                        elif isinstance(v, ast.Constant) and v.value is False:
+                    fcfg = CFG(f.node, m, f.module)
+
+                    def unit_false(a, tv):
+                        if isinstance(a, ast.Name):
+                            return a.id == 'unit' and not tv
+                        if isinstance(a, ast.Compare) and len(a.ops) == 1 and isinstance(a.left, ast.Name) and a.left.id == 'unit' and isinstance(a.comparators[0], ast.Constant):
+                            k = a.comparators[0].value
+                            return (k is False and ((tv and isinstance(a.ops[0], (ast.Is, ast.Eq))) or (not tv and isinstance(a.ops[0], (ast.IsNot, ast.NotEq))))) or \
+                                   (k is True and ((not tv and isinstance(a.ops[0], (ast.Is, ast.Eq))) or (tv and isinstance(a.ops[0], (ast.IsNot, ast.NotEq)))))
+                        return False
+                    false_side = sides_with_fact(fcfg, unit_false)
+                    ok, unknown = True, False
+                    for st in body_walk(f.node):
+                        if not isinstance(st, ast.Assign) or len(st.targets) != 1:
                             continue
+                        tg, v = st.targets[0], st.value
+                        if isinstance(tg, ast.Tuple) and isinstance(v, ast.Tuple) and len(tg.elts) == len(v.elts):
+                            pairs = list(zip(tg.elts, v.elts))
                         else:
-                            guarded = any(isinstance(a, ast.If) and src(a.test) in ('unit is True', 'unit') for a in ancestors(st))
-                            ok = ok and guarded
-                    ctx.check(ok, construct, c, f'`{flag.id}` is False unless unit is True',
-                              f'`{flag.id}` can be true although unit is False: the text form of the container contains units', f)
+                            pairs = [(tg, v)]
+                        for t_, v_ in pairs:
+                            if not (isinstance(t_, ast.Name) and t_.id == flag.id):
+                                continue
+                            if isinstance(v_, ast.Constant) and v_.value is False:
+                                continue
+                            if isinstance(v_, ast.Constant) and v_.value is True:
+                                if set(fcfg.ids(st)) & false_side:
+                                    ok = False
+                                continue
+                            if isinstance(v_, ast.Name) and v_.id == 'unit':
+                                continue
+                            unknown = True
+                    if ok and unknown:
+                        ctx.undecided(construct, c, f'`{flag.id}` is computed by an expression that is not followed', f)
+                    else:
+                        ctx.check(ok, construct, c, f'`{flag.id}` is False wherever unit is False',
+                                  f'`{flag.id}` can be true although unit is False: the text form of the container contains units', f)
                 else:
                     ctx.undecided(construct, c, 'flag expression not recognised', f)
 
@@ -676,3 +702,50 @@ def an_empty_value_is_not_refused_by_its_truth_value(ctx):
             if not hits:
                 ctx.ok(f'{f.qualname}:an empty value is refused by a comparison with the limit only', f.node,
                        f'no refusal decided by the truth value of the length (length locals: {sorted(lens) or "-"})', f)
+
+
+@rule('C02.R13', min_instances=1)
+def struct_import_allows_absent_optional_members(ctx):
+    """StructOf.import_value reaches check_type with allow_optional true (directly, or through a helper method of the class that
+    passes its own parameter on): what export_value of a client side struct emits - a value without an optional member - must
+    come back in on the node, where check_type(value) without the flag demands every member"""
+    m = ctx.m
+    f = m.method(f'{DT}.StructOf', 'import_value', inherited=False)
+    ctx.analysed(f)
+    ci = m.cls(f'{DT}.StructOf')
+    verdicts = []
+
+    def flag_of(call, binding, depth, owner):
+        a = call.args[1] if len(call.args) > 1 else (kwarg(call, 'allow_optional'))
+        if a is None:
+            return False, call
+        if isinstance(a, ast.Constant):
+            return bool(a.value), call
+        if isinstance(a, ast.Name) and a.id in binding:
+            b = binding[a.id]
+            return (bool(b.value) if isinstance(b, ast.Constant) else None), call
+        return None, call
+
+    def scan(fn, binding, depth):
+        for c in calls_in(fn.node):
+            if call_attr(c) == 'check_type' and dotted(c.func.value) == 'self':
+                verdicts.append(flag_of(c, binding, depth, fn))
+            elif depth < 2 and isinstance(c.func, ast.Attribute) and dotted(c.func.value) == 'self' and c.func.attr in ci.methods and c.func.attr != fn.name:
+                h = ci.methods[c.func.attr]
+                if any(call_attr(x) == 'check_type' for x in calls_in(h.node)):
+                    b = type(m)._bind(h.node, c)
+                    if b is None:
+                        verdicts.append((None, c))
+                    else:
+                        b = {k: (binding.get(v.id, v) if isinstance(v, ast.Name) else v) for k, v in b.items()}
+                        scan(h, b, depth + 1)
+    scan(f, {}, 0)
+    if not verdicts:
+        raise AnchorMissing('no check_type call reached from StructOf.import_value')
+    for v, c in verdicts:
+        if v is None:
+            ctx.undecided(f'{f.qualname}:optional members may be absent on import', c, f'`{src(c)}`: the flag is not a constant', f)
+        else:
+            ctx.check(v, f'{f.qualname}:optional members may be absent on import', c, 'check_type(value, True)',
+                      f'`{src(c)}` is reached from import_value without allow_optional: a struct value lacking an optional member - valid, and exported like that by the '
+                      'client side type - is refused with "missing struct elements" on its way back in', f)
